@@ -60,13 +60,63 @@ func ruleCheckImpls(P *Program) []*ssa.Function {
 }
 
 // throughVia: do all / any CFG paths from `from` to `to` pass through `via`?
+// The walk is aware of one kind of infeasible path, which inlined helpers produce all the time: a result variable that
+// is assigned a non-nil error on one branch and nil on another and is tested right after the join (`if err != nil`).
+// The incoming value of each phi is tracked along the path; a nil test on it follows only the branch that value allows.
 func throughVia(from, to, via ssa.Instruction) (all, any bool) {
 	any = instrReaches(from, via) && instrReaches(via, to)
-	// all: `to` unreachable from `from` when `via` is removed
-	seen := map[*ssa.BasicBlock]bool{}
 	reached := false
-	var walk func(b *ssa.BasicBlock, i int)
-	walk = func(b *ssa.BasicBlock, i int) {
+	budget := 20000
+	type stateKey struct {
+		b    *ssa.BasicBlock
+		pred *ssa.BasicBlock
+	}
+	onPath := map[stateKey]bool{}
+	var walk func(b, pred *ssa.BasicBlock, i int, env map[*ssa.Phi]ssa.Value)
+	walk = func(b, pred *ssa.BasicBlock, i int, env map[*ssa.Phi]ssa.Value) {
+		budget--
+		if reached || budget < 0 {
+			if budget < 0 {
+				reached = true // give up: assume a bypass exists
+			}
+			return
+		}
+		k := stateKey{b, pred}
+		if onPath[k] {
+			return
+		}
+		onPath[k] = true
+		defer delete(onPath, k)
+		if i == 0 && pred != nil {
+			// resolve the phis of b for the edge pred -> b
+			var upd map[*ssa.Phi]ssa.Value
+			for _, ins := range b.Instrs {
+				phi, ok := ins.(*ssa.Phi)
+				if !ok {
+					break
+				}
+				for j, p := range b.Preds {
+					if p == pred {
+						if upd == nil {
+							upd = map[*ssa.Phi]ssa.Value{}
+							for kk, vv := range env {
+								upd[kk] = vv
+							}
+						}
+						v := phi.Edges[j]
+						if inner, ok := v.(*ssa.Phi); ok {
+							if r, ok := env[inner]; ok {
+								v = r
+							}
+						}
+						upd[phi] = v
+					}
+				}
+			}
+			if upd != nil {
+				env = upd
+			}
+		}
 		for ; i < len(b.Instrs); i++ {
 			ins := b.Instrs[i]
 			if ins == via {
@@ -77,16 +127,90 @@ func throughVia(from, to, via ssa.Instruction) (all, any bool) {
 				return
 			}
 		}
-		for _, s := range b.Succs {
-			if !seen[s] && !reached {
-				seen[s] = true
-				walk(s, 0)
+		succs := b.Succs
+		if ifi, ok := b.Instrs[len(b.Instrs)-1].(*ssa.If); ok && len(succs) == 2 {
+			if t, known := nilTestOutcome(ifi.Cond, env); known {
+				if t {
+					succs = succs[:1]
+				} else {
+					succs = succs[1:]
+				}
+			}
+		}
+		for _, s := range succs {
+			walk(s, b, 0, env)
+		}
+	}
+	walk(from.Block(), nil, instrIndex(from)+1, map[*ssa.Phi]ssa.Value{})
+	all = !reached
+	return
+}
+
+// nilTestOutcome decides `x == nil` / `x != nil` when x is a phi whose incoming value on the current path is known to
+// be nil or known to be non-nil.
+func nilTestOutcome(cond ssa.Value, env map[*ssa.Phi]ssa.Value) (truth bool, known bool) {
+	c, neg := stripNot(cond, true)
+	b, ok := c.(*ssa.BinOp)
+	if !ok || (b.Op != token.EQL && b.Op != token.NEQ) {
+		return false, false
+	}
+	var x ssa.Value
+	if isNilConst(b.Y) {
+		x = b.X
+	} else if isNilConst(b.X) {
+		x = b.Y
+	} else {
+		return false, false
+	}
+	phi, ok := x.(*ssa.Phi)
+	if !ok {
+		return false, false
+	}
+	v, ok := env[phi]
+	if !ok {
+		return false, false
+	}
+	var isNil bool
+	switch {
+	case isNilConst(v):
+		isNil = true
+	case knownNonNilError(v):
+		isNil = false
+	default:
+		return false, false
+	}
+	res := isNil == (b.Op == token.EQL)
+	if !neg {
+		res = !res
+	}
+	return res, true
+}
+
+// knownNonNilError: the result of an error constructor, or of pkg/errors Wrap / Wrapf applied to an error that is
+// known to be non-nil where the call stands.
+func knownNonNilError(v ssa.Value) bool {
+	call, ok := stripConv(v).(*ssa.Call)
+	if !ok {
+		return false
+	}
+	if isExtCall(call, "errors.New", "fmt.Errorf", "github.com/pkg/errors.New", "github.com/pkg/errors.Errorf") {
+		return true
+	}
+	if isExtCall(call, "github.com/pkg/errors.Wrap", "github.com/pkg/errors.Wrapf", "github.com/pkg/errors.WithMessage", "github.com/pkg/errors.WithStack") && len(call.Call.Args) > 0 {
+		arg := call.Call.Args[0]
+		for _, ft := range condFacts(call.Block()) {
+			bo, ok := ft.Cond.(*ssa.BinOp)
+			if !ok {
+				continue
+			}
+			if (bo.X == arg && isNilConst(bo.Y)) || (bo.Y == arg && isNilConst(bo.X)) {
+				if (bo.Op == token.NEQ && ft.Truth) || (bo.Op == token.EQL && !ft.Truth) {
+					return true
+				}
 			}
 		}
 	}
-	walk(from.Block(), instrIndex(from)+1)
-	all = !reached
-	return
+	return false
 }
 
 // blockedResultCall: call constructing / resetting a blocked TokenResult; returns the block type argument.
